@@ -1,13 +1,15 @@
 """C10 — only the leader decides; other nodes refuse (engine part: role gate, no journalling off-leader, follower-side expiry deferral)."""
-from props import engine2_common
+from props import engine2_common, c10f
 
 THEOREMS = engine2_common.THEOREMS_C10
+THEOREMS_ALL = THEOREMS + c10f.THEOREMS
 FINISH = {"level": "proof", "assumptions": [
     "M-ENGINE stage 2 (lean/Slock/Model/Engine2.lean) is hand-written; it is tied to server/db.go + server/lock.go by the E-seq differential run "
     "(real SLock + LockDB in-process, virtual clock, real AofChannel as journalling sink, non-leader phases with ticks and replicated commands) "
     "and cross-checked on every operation against the stage-1 model through `abs`",
-    "scope of this check: what ONE node's lock engine does when it is not the leader (rows S0 of Lock/UnLock, PushLockAof/PushUnLockAof, doExpried); "
-    "forwarding to the leader and the relay of its reply (transparency protocol objects), text protocol and multi-node schedules are not covered here",
+    "engine half: what ONE node's lock engine does when it is not the leader (rows S0 of Lock/UnLock, PushLockAof/PushUnLockAof, doExpried); connection half (M-TRANS, "
+    "tools/props/c10f.py): Server.handle / checkProtocol / Transparency*ServerProtocol forwarding to the leader and relaying its reply, AGAIN re-dispatch on role change, driven on "
+    "two real nodes in one process over loopback with a recording byte proxy and an oracle connection straight to the leader",
     "a LOCK with the concurrent-check flag and Timeout 0 is answered from the node's own state before the role is looked at (rows P0a/P0b): excluded by hypothesis in gate_lock",
     "observed and proved (follower_defers_again): the follower re-arm overwrites the deadline, so the 300 s bound of the statement is measured against the last re-arm — "
     "a follower never ends a replicated hold on its own clock; the monitor C10:follower-ended-replicated-hold checks the statement's safety reading (not ended before deadline+300)"]}
@@ -20,10 +22,15 @@ def run(ctx):
     if ctx.tier == "thorough":
         ctx.leanchecker("Slock.Properties.C10")
     engine2_common.run_engine2(ctx, ["C10:"])
+    c10f.run_forward(ctx, ["C10:"])
+    for a in c10f.FINISH.get("assumptions", []):
+        ctx.assumptions.append("forwarding half: " + a)
     ctx.cov["rule"] = ("seeded operation sequences on the real LockDB (LOCK/UNLOCK with value frames, aof-timing flags, from-aof commands; ticks; role flips with "
                        "follower phases of up to 45 s bursts; snapshots incl. value/refCount/KeyCount; journal pulls), six profiles, adaptive drain + 18 s; "
                        "distinct_nontrivial = distinct sequences containing at least one grant")
 
 
 def replay(path):
-    return engine2_common.replay_engine2("C10", path, ["C10:"])
+    if "engine2 " in open(path).read():
+        return engine2_common.replay_engine2("C10", path, ["C10:"])
+    return c10f.replay(path)
